@@ -423,6 +423,10 @@ func (c *client) provide(outs []interface{}) error {
 }
 
 func (c *client) makeOutChan(ctx context.Context, ftyp reflect.Type, valOut int) (func() reflect.Value, makeChanSink) {
+	if ctx == nil {
+		// the method has no context parameter: the subscription lives as long as the connection
+		ctx = context.Background()
+	}
 	retVal := reflect.Zero(ftyp.Out(valOut))
 
 	chCtor := func() (context.Context, func([]byte, bool)) {
